@@ -119,6 +119,19 @@ func CheckOffline(in OfflineInput, sit func(prop, s string)) []Finding {
 		}
 	}
 
+	// a job reported as plain success has executed each of its tasks exactly once
+	for i := range in.Final.Jobs {
+		j := &in.Final.Jobs[i]
+		if j.Completed && !j.Canceled && !j.HasError && in.Deps[j.ID] != nil {
+			sit("C02", fmt.Sprintf("plain success with %d tasks", len(j.Tasks)))
+			for _, t := range j.Tasks {
+				if n := len(perTask[[2]string{j.ID, t.Name}]); n != 1 {
+					add([]string{"C02", "C08"}, "C02:plain-success-but-task-not-executed-exactly-once", "%s is reported completed successfully but its task %s entered the runner %d times", name(j.ID), t.Name, n)
+				}
+			}
+		}
+	}
+
 	// ---- C01: spans and intervals ----
 	type span struct {
 		id    string
